@@ -204,6 +204,7 @@ def check_template_and_exists(ctx, rng, tmp, data, rate, width, channels):
                                              "ev_{duration}." + ext, "plain." + ext, "x{start:06.2f}." + ext,
                                              # characters that mean something to a shell or to os.path.expandvars mean nothing in a file name
                                              # (TAKE is defined in the environment of every check process)
+                                             "pc_{duration:.0%}." + ext, "p_{start:.1%}_{duration:>8.2%}." + ext,  # '%' is float's own percent presentation type
                                              "take_$TAKE_{start}." + ext, "take_${{TAKE}}_{end}." + ext, "%TAKE%_{duration}." + ext)))
     expected = template.format(start=reg.start, end=reg.end, duration=reg.duration)
     case = {"op": "save-template", "template": os.path.basename(template), "start": start, "fmt": [rate, width, channels], "nbytes": len(data)}
@@ -257,6 +258,34 @@ def check_template_and_exists(ctx, rng, tmp, data, rate, width, channels):
         ctx.count("overwrites_ok")
     except Exception as exc:
         ctx.violation("save-overwrite-raises:" + type(exc).__name__, {"case": cj})
+
+
+def check_save_with_audio_keywords(ctx, rng, tmp, data, rate, width, channels):
+    """save() takes **audio_parameters; a region knows its own parameters, so whatever the caller adds there the wav that is
+    written carries the REGION's rate, width and channel count (a call that is refused writes nothing and is not judged)."""
+    if not data:
+        return
+    reg = AudioRegion(data, rate, width, channels)
+    other = {"sampling_rate": rate + 1000, "sr": 8000 if rate != 8000 else 16000, "sample_width": {1: 2, 2: 4, 4: 2}[width], "sw": {1: 2, 2: 1, 4: 1}[width],
+             "channels": channels + 1, "ch": channels % 4 + 1}
+    keys = rng.sample(sorted(other), rng.choice((1, 1, 2)))
+    extra = {k: other[k] for k in keys}
+    path = os.path.join(tmp, "kw.wav")
+    case = {"op": "save-with-audio-keywords", "keywords": extra, "fmt": [rate, width, channels], "data": data.hex()}
+    ctx.case(repr(case), True)
+    ctx.count("saves_with_contradicting_audio_keywords")
+    try:
+        reg.save(path, **extra)
+    except Exception:
+        ctx.count("saves_with_contradicting_audio_keywords_refused")
+        return
+    try:
+        got, r_, w_, c_ = wav_read(path)
+    except Exception as exc:
+        ctx.violation("saved-wav-unreadable:" + type(exc).__name__, {"case": case})
+        return
+    if (r_, w_, c_) != (rate, width, channels) or got != data:
+        ctx.violation("saved-wav-differs-from-region", {"case": case, "file_fmt": [r_, w_, c_], "file_bytes": len(got)})
 
 
 def check_load_slice(ctx, rng, tmp, data, rate, width, channels):
@@ -501,7 +530,7 @@ def run_shard(ctx, upto=None):
                 vals = [max(-lim, min(lim - 1, rng.choice((-lim, lim - 1, 0, -1, 1, 256, -256, 255, 127, -128)))) for _ in range(channels * rng.randint(1, 6))]
                 data = struct.pack("<%d%s" % (len(vals), E.FMT[width]), *vals)
             for fn in (check_roundtrip, check_read, check_template_and_exists, check_load_slice, check_load_slice, check_write_containers,
-                       check_overwrite_and_dir_placeholders):
+                       check_overwrite_and_dir_placeholders, check_save_with_audio_keywords):
                 try:
                     fn(ctx, rng, tmp, data, rate, width, channels)
                 except Exception as exc:
